@@ -160,6 +160,9 @@ sig_strategy = st.tuples(
         st.tuples(st.tuples(st.just('a'), st.sampled_from(ALPHA))),
         st.tuples(st.tuples(st.just('b'), st.sampled_from(ALPHA))),
         st.tuples(st.tuples(st.just('a'), st.sampled_from(ALPHA)), st.tuples(st.just('b'), st.sampled_from(ALPHA))),
+        st.tuples(st.tuples(st.just('b'), st.sampled_from(ALPHA)), st.tuples(st.just('a'), st.sampled_from(ALPHA))),
+        st.tuples(st.tuples(st.just('b'), st.sampled_from([0, 'a'])), st.tuples(st.just('a'), st.sampled_from([0, 'a']))),
+        st.tuples(st.tuples(st.just('a'), st.sampled_from([0, 'a'])), st.tuples(st.just('b'), st.sampled_from([0, 'a']))),
     ),
 )
 
